@@ -28,4 +28,4 @@ def main(tier, seed):
 
 
 def replay(path):
-    return deps_run.replay(path, ("dbl", "lcd"))
+    return deps_run.replay(path)
